@@ -13,13 +13,13 @@ RULE = ("every multiset of <=N (address,count) ranges (in every order of present
         "within reach) or the output differs from the sorted input")
 BOUNDS_NOTE = "poller: every non-empty subset of 9 addresses in 3 banks (two of them far enough to make a merged run longer than one transfer) x reach {1,3,100} x {no failure, one transient read failure at read k of cycle c, a read failing in every cycle, a register added later, the reach changed after cycle 1} x failure kind {exception response, no response, connection error}, 4 poll cycles of the real poller_modbus._poller under a virtual clock"
 BOUNDS = {
-    "quick": "multisets of <=3 ranges over 73-range alphabet, of 4 over the 24-range low cluster; reach {None,0,1,2,5,100}; limit {None,1,2,3}",
+    "quick": "multisets of <=3 ranges over 73-range alphabet, of 4 over the 24-range low cluster; reach {None,0,1,2,5,100}; limit {None,0,1,2,3}",
     "thorough": "multisets of <=4 ranges over the full 73-range alphabet; same reach/limit; shatter counts 0..2100",
 }
 ASSUMPTIONS = ["input ranges lie inside one Modbus register bank and have count >= 1 (the property's domain)"]
 
 REACH = [None, 0, 1, 2, 5, 100]
-LIMIT = [None, 1, 2, 3]
+LIMIT = [None, 0, 1, 2, 3]          # 0 and None both mean "the bank's default transfer limit"
 COUNTS = [1, 2, 3, 5]
 ADDRS = list(range(1, 7)) + [9996, 9997, 9998, 9999] + [10001, 10002, 10003, 10004] + [39998, 39999, 40001, 40002, 40003]
 
@@ -303,7 +303,7 @@ def shard(acc, item, tier, seed):
         _, lo, hi = item
         for a in (1, 9999, 10001, 30001, 40001, 100001, 300001, 400001):
             for c in range(lo, hi):
-                for limit in (None, 1, 2, 123, 1968):
+                for limit in (None, 0, 1, 2, 123, 1968):
                     acc.ev()
                     if c > 1:
                         acc.ntc()
